@@ -325,7 +325,7 @@ Proof.
       * rewrite m_round_pad32_some by (unfold i32; lia). cbn [obind].
         rewrite chk_s32_some by (unfold i32; lia). cbn [obind]. split; [lia|discriminate].
       * rewrite Hpad by (unfold i32; lia). clear Hpad. cbn [obind]. split; [intros Hnn; exfalso; apply Hnn; reflexivity|lia].
-    + split; [intros Hnn; exfalso; apply Hnn; reflexivity|unfold i32 in *; lia].
+    + clear Hpad. split; [intros Hnn; exfalso; apply Hnn; reflexivity|unfold i32 in *; lia].
 Qed.
 
 (* --- super_round: the only writer of (threshold, phase, period) --- *)
@@ -414,25 +414,20 @@ Proof.
   - rewrite (chk_s32_some (d + (t - ph))) by (unfold i32; lia). cbn [obind].
     rewrite div32_some by lia. cbn [obind].
     assert (Hq : Z.abs (Z.quot (d + (t - ph)) pe * pe) <= Z.abs (d + (t - ph))).
-    { pose proof (Z.quot_rem' (d + (t - ph)) pe) as Hqr.
-      pose proof (Z.rem_bound_abs (d + (t - ph)) pe ltac:(lia)) as Hrb.
-      pose proof (Z.rem_sign_nz (d + (t - ph)) pe) as Hsg.
-      destruct (Z.eq_dec (Z.rem (d + (t - ph)) pe) 0) as [Hz|Hz]; [lia|].
-      specialize (Hsg Hz). destruct (Z_lt_dec (d + (t - ph)) 0).
-      - rewrite (Z.sgn_neg (d + (t - ph))) in Hsg by lia.
-        assert (Z.rem (d + (t - ph)) pe < 0) by (destruct (Z.rem (d + (t - ph)) pe); cbn in Hsg; lia). lia.
-      - destruct (Z.eq_dec (d + (t - ph)) 0) as [H0|H0].
-        + rewrite H0 in *. rewrite Z.rem_0_l in Hz by lia. lia.
-        + rewrite (Z.sgn_pos (d + (t - ph))) in Hsg by lia.
-          assert (0 < Z.rem (d + (t - ph)) pe) by (destruct (Z.rem (d + (t - ph)) pe); cbn in Hsg; lia). lia. }
+    { set (s := d + (t - ph)). destruct (Z_le_dec 0 s).
+      - rewrite Z.quot_div_nonneg by lia. destruct Hpe as [-> | [-> | ->]]; lia.
+      - replace s with (- (- s)) at 1 by lia. rewrite Z.quot_opp_l by lia.
+        rewrite Z.quot_div_nonneg by lia. destruct Hpe as [-> | [-> | ->]]; lia. }
     rewrite chk_s32_some by (unfold i32; lia). cbn [obind].
     rewrite chk_s32_some by (unfold i32; lia). cbn [obind].
     match goal with |- (if ?bb then _ else _) <> None => destruct bb end; discriminate.
   - rewrite (chk_s32_some (t - ph - d)) by (unfold i32; lia). cbn [obind].
     rewrite div32_some by lia. cbn [obind].
-    assert (Hpos : 0 <= t - ph - d) by lia.
-    rewrite Z.quot_div_nonneg by lia.
-    assert (Hq : 0 <= (t - ph - d) / pe * pe <= t - ph - d) by (destruct Hpe as [-> | [-> | ->]]; lia).
+    assert (Hq : Z.abs (Z.quot (t - ph - d) pe * pe) <= Z.abs (t - ph - d)).
+    { set (s := t - ph - d). destruct (Z_le_dec 0 s).
+      - rewrite Z.quot_div_nonneg by lia. destruct Hpe as [-> | [-> | ->]]; lia.
+      - replace s with (- (- s)) at 1 by lia. rewrite Z.quot_opp_l by lia.
+        rewrite Z.quot_div_nonneg by lia. destruct Hpe as [-> | [-> | ->]]; lia. }
     rewrite chk_s32_some by (unfold i32; lia). cbn [obind].
     rewrite chk_s32_some by (unfold i32; lia). cbn [obind].
     rewrite chk_s32_some by (unfold i32; lia). cbn [obind].
@@ -464,7 +459,9 @@ Qed.
 Lemma fx_abs16_trap_iff a : i16 a -> (fx_abs 16 a <> None <-> a <> -32768).
 Proof.
   intros Ha. unfold fx_abs, chk_s, in_s. change (2 ^ (16 - 1)) with 32768. unfold i16 in *.
-  destruct ((- 32768 <=? Z.abs a) && (Z.abs a <? 32768)) eqn:E; split; intros; try congruence; lia.
+  destruct (_ && _) eqn:E.
+  - split; [intros _; lia|discriminate].
+  - split; [intros Hnn; exfalso; apply Hnn; reflexivity|lia].
 Qed.
 Lemma no_trap_fract bits f x : 0 <= f < bits - 1 -> fx_fract bits f x <> None.
 Proof. intros H. rewrite fx_fract_total by assumption. discriminate. Qed.
@@ -492,7 +489,8 @@ Proof.
   intros Ha Hab Hb.
   assert (Hr : rha (a * 65536) b = (2 * (a * 65536) + b) / (2 * b)) by (apply rha_pos; lia).
   assert (Hq : 0 <= (2 * (a * 65536) + b) / (2 * b) <= 65536).
-  { split; [apply Z.div_pos; lia|]. apply Z.div_le_upper_bound; [lia|]. nia. }
+  { split; [apply Z.div_pos; lia|].
+    assert ((2 * (a * 65536) + b) / (2 * b) < 65537) by (apply Z.div_lt_upper_bound; lia). lia. }
   rewrite fixed_div_spec; unfold i32; try lia.
 Qed.
 
